@@ -246,6 +246,10 @@ package ratelimiting
 //@   at call WithCancel#0 ghost dctx = res0
 //@   at select#0 assert [C09.run.listens] selhas(c.inputCh) && selhas(c.closeCh)
 //@   at select#0 ghost sel = selchan
+// "a burst's trailing Add is signalled when its window ends": whenever Run blocks while a window is open (as it saw
+// under the read lock, label RU), the window timer's channel is among the channels it waits on
+//@   at before call RUnlock#0 label RU
+//@   at select#0 assert [C09.run.listens.window] at(RU, c.hasTimer.v != 0) ==> selhas(at(RU, c.timer.tchan))
 //@   at every send assert [C09.run.nosend] false
 //@   at every select assert [C09.run.nosend.select] forall x :: !selhassend(x)
 //@   at every before call handleInputCh assert [C09.run.dispatch.input] sel == c.inputCh
